@@ -111,6 +111,29 @@ def run(ctx, ck):
                             if isinstance(b_, ast.Name):
                                 cands.append(b_.id)
                 dep = any(is_sign_array(nm, nid, 4, set()) for nm in set(cands))
+                if not dep:
+                    # the sign arrays may be built in a helper that was written back in place, or be
+                    # folded into one expression: judge the factors of the accumulated product by what
+                    # they derive from - one of them must derive from the image sign (loop variable /
+                    # image_iter) and from literals and array constructors only, apart from masks
+                    from ..dataflow import value_alternatives
+                    alts_ = value_alternatives(fl, v2, nid)
+                    found_all = bool(alts_)
+                    for alt_, at_ in alts_:
+                      found_ = False
+                      for sub in ast.walk(alt_):
+                        if not (isinstance(sub, ast.BinOp) and isinstance(sub.op, ast.Mult)):
+                            continue
+                        for t_, x_ in product_of(sub).num:
+                            r_ = fl.roots(x_, at_)
+                            from_sign = ('call', 'self.image_iter') in r_ or ('iter', kv) in r_
+                            data = [y_ for y_ in r_ if y_[0] in ('attr', 'param') and not (
+                                y_[0] == 'attr' and (y_[1].startswith('self.pulses.') or y_[1] == 'self.pulses' or y_[1] == 'self.media'))
+                                and y_ != ('param', 'self')]
+                            if from_sign and not data:
+                                found_ = True
+                      found_all = found_all and found_
+                    dep = dep or found_all
             ck.ob('R-EXH.image-loop', '%s|accumulate %s' % (q, norm(s.target)[:40]), dep, f.loc(s),
                   'image contribution weighted by the image sign%s' % (' (factor k)' if direct else
                                                                        ' (through sign arrays)') if dep
